@@ -27,6 +27,7 @@ func vh_NEW() {
 		e.EntryType = ConfigurationEntry
 		e.Data, _ = tr.EncodeConfiguration(logCfg)
 		vTag("log-has-cfg", "yes")
+		vSyncLogToDisk(lg)
 	}
 	// newest visible snapshot
 	snapCase := vChoose("snapCase", 3) // 0 none, 1 at the log's first index, 2 ahead of it
